@@ -1077,7 +1077,7 @@ reg('C12', frontprops.run_C12, ['Prop_C12.v'], 'seeded random usable grammars wi
 
 reg('C16', genprops.run_C16, ['Prop_C16.v'], 'grammars: curated families, one grammar per group of literal characters covering every printable special character (quotes, backslash-free, %, $, braces, bar, space, backquote), seeded random grammars (operator tables, many literals, long rules and many alternatives, empty rules, precedences), declaration mixes; actions drawn from a pool that uses $$ and $n with typed symbols and contains %, format strings, block and line comments, strings with braces and quotes, raw strings, nested blocks; minimal prologue (package + import fmt / "use strict") and epilogue (GetToken). Every output path holds a longer, older file before generation (regenerate in place). Every file the CLI built from /repo reports as generated is compiled: the four Go variants as packages of one module through `go vet` (type check) and `go build`, the TypeScript variant loaded by node >= 22 with type stripping. non-trivial = (grammar, variant) pairs that the generator accepted',
     technique='Coq theorems on the text fragments the builder pastes (rule comment cannot be closed by action text; translate case labels distinct; the action substitution pastes dollar-free text unchanged and emits for a reference exactly the field of that symbol) + model of the action substitution against the emitted code of every action + go vet/go build/node on every generated file of a corpus stressing names, literals, actions and rule shapes',
-    level_text="Proved in Coq: the rule comment built from any action text contains no comment terminator and shows terminator-free text unchanged (C16_comment_safe, C16_comment_faithful); the case labels of translate are pairwise distinct when the code table passes the verified checker (C16_translate_cases_distinct); the model of actionCodeReplace pastes an action without dollar signs unchanged and emits for $n exactly `Dollar[n].<tag of symbol n>` when n is in range and typed, stopping the generation otherwise (C16_action_plain, C16_action_reference, C16_action_example). Acceptance of the whole file by the Go type checker / a JavaScript engine is runtime behaviour no Coq model exhibits (partial): it is decided on every run by compiling every generated file of the corpus in all five variants; compiler diagnostics are the failing evidence. On every run the code emitted for every action of the corpus (default Go variant and TypeScript) is compared with the model of the substitution run on the implementation's own action text and tags; every output path holds a longer older file before generation.",
+    level_text="Proved in Coq: the rule comment built from any action text contains no comment terminator and shows terminator-free text unchanged (C16_comment_safe, C16_comment_faithful); the case labels of translate are pairwise distinct when the code table passes the verified checker (C16_translate_cases_distinct); the model of actionCodeReplace pastes an action without dollar signs unchanged and emits for $n exactly `Dollar[n].<tag of symbol n>` when n is in range and typed, stopping the generation otherwise (C16_action_plain, C16_action_reference, C16_action_example); across the layers, an action body as the lexer cuts it out is brace-balanced and the substitution keeps the nesting, so the code pasted into one case of the reduce function cannot close the function or swallow the next case (C16_action_token_balanced, C16_substitution_keeps_nesting, C16_emitted_action_balanced). Acceptance of the whole file by the Go type checker / a JavaScript engine is runtime behaviour no Coq model exhibits (partial): it is decided on every run by compiling every generated file of the corpus in all five variants; compiler diagnostics are the failing evidence. On every run the code emitted for every action of the corpus (default Go variant and TypeScript) is compared with the model of the substitution run on the implementation's own action text and tags; every output path holds a longer older file before generation.",
     level_note=MODEL_NOTE + ' go vet/go build and node (type stripping, no type check: no tsc in the sandbox) are trusted for the verdict on each file. Guard: token names are identifiers of the target language that are not keywords or template names.')
 reg('C17', genprops.run_C17, ['Prop_C17.v'], I6RULE + 'trace jobs: sentences and short strings run with IsTrace = true in the four Go variants; every printed line is parsed and the printed run is replayed on the implementation\'s own GTable (token read, state pushed, lookahead, rule text from the grammar, goto state, goto push after every reduction), the printed reductions are compared with those the actions recorded in the same run, and the run must be traced up to the accept or error cell. non-trivial = traced runs with at least one reduction',
     technique='Coq theorems on the traced LR machine (printed reductions = performed reductions; the printed run replays on the table) + replay of every real trace on the implementation\'s own table',
